@@ -41,8 +41,6 @@ PINNED = {
     "a callee returning through its own finally block while the caller's finally block runs with a pending return cancels the caller's return"),
  "K-throw-in-return-finally": (ir([["try", [["call", 0, 7]], [["evexc", 2]], [["ev", 3]]], ["ev", 9]], [("fn", [["try", [["ret", 14]], None, [["failop", 1, 1]]]])]), {},
     "an exception that leaves a finally block entered by `return` leaves the pending return armed: the next finally block to end in the same fiber performs that return"),
- "K-break-locals": (ir([["loop", "for", 2, [["local", 3, [["brk"]]]], None], ["local", 4, []]]), {},
-    "`break` out of a loop body that has declared local variables leaves them on the stack, so later locals of the function read the wrong slot (not an exception defect; bounds the C08/C09 workloads)"),
 }
 
 def main():
